@@ -1,7 +1,7 @@
 (* C01 — Two endpoints built on the library interoperate, even across transport loss.
    Statements only.  Nothing else may be added to this file. *)
-From MQ Require Import Base.Prelude Alloc.Alloc Framing.Framing Framing.FramingProofs Conn.Types Conn.ConnRecord Conn.Step
-                       Corr.ConnTrace Conn.Scope Conn.Session Conn.IdsQuota Conn.Own Conn.OwnFrame Conn.OwnStep Conn.Run Conn.PairQos Conn.PairQos0 Conn.PairQos5 Conn.PairSeq Conn.PairSeq5 Conn.PairConc Conn.PairBi Conn.PairConc5 Conn.PairBi5 Conn.SessInv Conn.PairLoss Conn.PairLossAcc Conn.PairLossS.
+From MQ Require Import Base.Prelude Alloc.Alloc Alloc.AllocProofs Framing.Framing Framing.FramingProofs Conn.Types Conn.ConnRecord Conn.Step
+                       Corr.ConnTrace Conn.Scope Conn.Session Conn.IdsQuota Conn.Own Conn.OwnFrame Conn.OwnStep Conn.Run Conn.PairQos Conn.PairQos0 Conn.PairQos5 Conn.PairSeq Conn.PairSeq5 Conn.PairConc Conn.PairBi Conn.PairConc5 Conn.PairBi5 Conn.PairManual Conn.SessInv Conn.PairLoss Conn.PairLossAcc Conn.PairLossS.
 
 (* what the pair property rests on, each proved for ALL states of one endpoint:
    (i) delivery in any fragmentation is the same byte stream (C09) *)
@@ -216,6 +216,47 @@ Theorem C01_pair_two_way_invariant_after_handshake : forall gA gB a b,
 Proof. exact inv2_init. Qed.
 Print Assumptions C01_pair_two_way_invariant_after_handshake.
 
+(* MANUAL RESPONSES (Conn/PairManual.v; auto_pub_response off, v3.1.1): the library requests nothing by itself; the
+   applications send PUBACK / PUBREC / PUBREL / PUBCOMP through the ordinary send call.  From every admissible pair of
+   states each call succeeds without an error event, requests exactly the packet it was given, the message is notified
+   exactly once, the receiver's handled set returns to what it was and the sender releases the identifier *)
+Theorem C01_pair_qos1_completes_manual : forall gs gr cs cr p,
+  OWN gs cs -> ready cs -> ready cr -> c_auto_pub cr = false -> v311_pub p 1 ->
+  fresh cs (k_pid p) -> is_used cs (k_pid p) = true ->
+  exists cs1 e1 cr1 e2 cr2 e3 cs2 e4,
+    send_publish_v311 cs p = Ok (cs1, e1) /\ sends e1 = [p] /\ errors e1 = [] /\
+    (* the receiver is notified and requests nothing by itself *)
+    deliver gr cr p = Ok (cr1, e2) /\ notifies e2 = [p] /\ sends e2 = [] /\ errors e2 = [] /\
+    (* its application sends the PUBACK *)
+    step gr cr1 (OSend (puback_for gr p)) = Ok (cr2, e3, []) /\ sends e3 = [puback_for gr p] /\ errors e3 = [] /\ notifies e3 = [] /\
+    ready cr2 /\ c_auto_pub cr2 = false /\ c_qos2 cr2 = c_qos2 cr /\
+    (* which completes the exchange at the sender *)
+    deliver gs cs1 (puback_for gr p) = Ok (cs2, e4) /\ released e4 = [k_pid p] /\ sends e4 = [] /\ errors e4 = [] /\
+    OWN gs cs2 /\ ready cs2 /\ is_used cs2 (k_pid p) = false /\ fresh cs2 (k_pid p).
+Proof. exact qos1_completes_manual. Qed.
+Print Assumptions C01_pair_qos1_completes_manual.
+
+Theorem C01_pair_qos2_completes_manual : forall gs gr cs cr p,
+  OWN gs cs -> ready cs -> c_auto_pub cs = false -> ready cr -> c_auto_pub cr = false -> v311_pub p 2 ->
+  fresh cs (k_pid p) -> is_used cs (k_pid p) = true -> mem (k_pid p) (c_qos2 cr) = false -> asc 1 (g_idmax gs) (c_qos2 cr) -> 1 <= k_pid p <= g_idmax gs ->
+  exists cs1 e1 cr1 e2 cr2 e3 cs2 e4 cs3 e5 cr3 e6 cr4 e7 cs4 e8,
+    send_publish_v311 cs p = Ok (cs1, e1) /\ sends e1 = [p] /\ errors e1 = [] /\
+    (* receiver: notified once, nothing requested; its application sends PUBREC *)
+    deliver gr cr p = Ok (cr1, e2) /\ notifies e2 = [p] /\ sends e2 = [] /\ errors e2 = [] /\
+    step gr cr1 (OSend (pubrec_for gr p)) = Ok (cr2, e3, []) /\ sends e3 = [pubrec_for gr p] /\ errors e3 = [] /\ notifies e3 = [] /\
+    (* sender: its application is told of the PUBREC, nothing is requested; it sends PUBREL *)
+    deliver gs cs1 (pubrec_for gr p) = Ok (cs2, e4) /\ notifies e4 = [pubrec_for gr p] /\ sends e4 = [] /\ errors e4 = [] /\ released e4 = [] /\
+    step gs cs2 (OSend (pubrel_for gs p)) = Ok (cs3, e5, []) /\ sends e5 = [pubrel_for gs p] /\ errors e5 = [] /\ notifies e5 = [] /\
+    (* receiver: told of the PUBREL (no second PUBLISH notification), forgets the identifier; its application sends PUBCOMP *)
+    deliver gr cr2 (pubrel_for gs p) = Ok (cr3, e6) /\ notifies e6 = [pubrel_for gs p] /\ sends e6 = [] /\ errors e6 = [] /\
+    step gr cr3 (OSend (pubcomp_for gr p)) = Ok (cr4, e7, []) /\ sends e7 = [pubcomp_for gr p] /\ errors e7 = [] /\ notifies e7 = [] /\
+    ready cr4 /\ c_auto_pub cr4 = false /\ c_qos2 cr4 = c_qos2 cr /\
+    (* sender: the exchange is complete, the identifier released *)
+    deliver gs cs3 (pubcomp_for gr p) = Ok (cs4, e8) /\ released e8 = [k_pid p] /\ sends e8 = [] /\ errors e8 = [] /\
+    OWN gs cs4 /\ ready cs4 /\ is_used cs4 (k_pid p) = false /\ fresh cs4 (k_pid p).
+Proof. exact qos2_completes_manual. Qed.
+Print Assumptions C01_pair_qos2_completes_manual.
+
 (* BOTH DIRECTIONS AT ONCE, v5.0 (Conn/PairBi5.v): each side publishes within the other side's Receive Maximum and Maximum
    Packet Size while it receives and acknowledges; the invariant is the v5.0 one-direction invariant [inv5] twice.  For
    EVERY schedule nothing fails and no limit is overrun; once the links have drained each application has been notified
@@ -374,6 +415,33 @@ Proof.
   specialize (HO H1 H2). clear H1 H2.
   match type of HO with ?A -> _ => assert (HQ : A) by (vm_compute; repeat split; try reflexivity; try discriminate; intros; try discriminate) end.
   specialize (HO HQ). clear HQ. revert HO. vm_compute. intro HO. split; [exact HO|]. repeat split; reflexivity.
+Qed.
+
+(* the manual-response theorems are not vacuous: after an ordinary handshake without automatic responses the premises hold *)
+Example C01_pair_manual_nonvacuous :
+  let gs := mkCfg RClient 65535 2 in
+  let gr := mkCfg RServer 65535 2 in
+  let cn := mkPkt 1 V311 0 0 false false [] None 0 0 14 false 0 true 0 None None None None None in
+  let ca := mkPkt 2 V311 0 0 false false [] None 0 0 4 true 0 false 0 None None None None None in
+  let ops_s := [OSend cn; ORecv [32;2;0;0] (PROk ca); OAcquire] in
+  let ops_r := [ORecv [16;12;0;4;77;81;84;84;4;2;0;0;0;0] (PROk cn); OSend ca] in
+  let p2 := mkPkt 3 V311 1 2 false false [116] None 0 0 7 false 0 false 0 None None None None None in
+  match run_state gs (conn_new gs V311) ops_s, run_state gr (conn_new gr V311) ops_r with
+  | Some cs, Some cr =>
+      OWN gs cs /\ ready cs /\ c_auto_pub cs = false /\ ready cr /\ c_auto_pub cr = false /\ v311_pub p2 2 /\
+      fresh cs 1 /\ is_used cs 1 = true /\ mem 1 (c_qos2 cr) = false /\ asc 1 (g_idmax gs) (c_qos2 cr) /\ 1 <= 1 <= g_idmax gs
+  | _, _ => False
+  end.
+Proof.
+  cbv zeta.
+  pose proof (fresh_OWN_invariant (mkCfg RClient 65535 2) V311
+    [OSend (mkPkt 1 V311 0 0 false false [] None 0 0 14 false 0 true 0 None None None None None);
+     ORecv [32;2;0;0] (PROk (mkPkt 2 V311 0 0 false false [] None 0 0 4 true 0 false 0 None None None None None)); OAcquire]) as HO.
+  assert (H1 : 1 <= g_idmax (mkCfg RClient 65535 2)) by (cbn; lia).
+  assert (H2 : V311 <> VUndet) by discriminate.
+  specialize (HO H1 H2). clear H1 H2.
+  match type of HO with ?A -> _ => assert (HQ : A) by (vm_compute; repeat split; try reflexivity; try discriminate; intros; try discriminate) end.
+  specialize (HO HQ). clear HQ. revert HO. vm_compute. intro HO. split; [exact HO|]. repeat split; try reflexivity; try discriminate.
 Qed.
 
 Example C01_nonvacuous :
